@@ -1105,23 +1105,63 @@ func (d *Data) addSubvolumes(layer *layerT, subvolumes *subvolumesT, batchsize i
 	}
 }
 
+// zRange returns the minimum and maximum block Z of the ROI spans visible at the version of
+// the given context.  The MinZ and MaxZ properties belong to the data instance and follow the
+// last POST or DELETE at any version, so they cannot describe the ROI of a particular version.
+// An ROI without spans gives the (MaxInt32, MinInt32) that a new instance has.
+func (d *Data) zRange(ctx storage.Context) (minZ, maxZ int32, err error) {
+	minZ, maxZ = math.MaxInt32, math.MinInt32
+	db, err := datastore.GetOrderedKeyValueDB(d)
+	if err != nil {
+		return
+	}
+	keys, err := db.KeysInRange(ctx, storage.MinTKey(keyROI), storage.MaxTKey(keyROI))
+	if err != nil {
+		return
+	}
+	for _, tk := range keys {
+		var ibytes []byte
+		if ibytes, err = tk.ClassBytes(keyROI); err != nil {
+			return
+		}
+		index := new(indexRLE)
+		if err = index.IndexFromBytes(ibytes); err != nil {
+			err = fmt.Errorf("unable to get indexRLE out of []byte encoding: %v", err)
+			return
+		}
+		z := index.start.Value(2)
+		if z < minZ {
+			minZ = z
+		}
+		if z > maxZ {
+			maxZ = z
+		}
+	}
+	return
+}
+
 // Partition returns JSON of differently sized subvolumes that attempt to distribute
 // the number of active blocks per subvolume.
 func (d *Data) Partition(ctx storage.Context, batchsize int32) ([]byte, error) {
+	minZ, maxZ, err := d.zRange(ctx)
+	if err != nil {
+		return nil, err
+	}
+
 	// Partition Z as perfectly as we can.
-	dz := d.MaxZ - d.MinZ + 1
+	dz := maxZ - minZ + 1
 	zleft := dz % batchsize
 
 	// Adjust Z range
-	layerBegZ := d.MinZ
+	layerBegZ := minZ
 	layerEndZ := layerBegZ + batchsize - 1
 
 	// Iterate through blocks in ascending Z, calculating active extents and subvolume coverage.
 	// Keep track of current layer = batchsize of blocks in Z.
 	var subvolumes subvolumesT
 	subvolumes.Subvolumes = []subvolumeT{}
-	subvolumes.ROI.MinChunk[2] = d.MinZ
-	subvolumes.ROI.MaxChunk[2] = d.MaxZ
+	subvolumes.ROI.MinChunk[2] = minZ
+	subvolumes.ROI.MaxChunk[2] = maxZ
 
 	layer := d.newLayer(layerBegZ, layerEndZ)
 
@@ -1249,21 +1289,26 @@ func (d *Data) addSubvolumesGrid(layer *layerT, subvolumes *subvolumesT, batchsi
 
 // SimplePartition returns JSON of identically sized subvolumes arranged over ROI
 func (d *Data) SimplePartition(ctx storage.Context, batchsize int32) ([]byte, error) {
+	minZ, maxZ, err := d.zRange(ctx)
+	if err != nil {
+		return nil, err
+	}
+
 	// Partition Z as perfectly as we can.
-	dz := d.MaxZ - d.MinZ + 1
+	dz := maxZ - minZ + 1
 	zleft := dz % batchsize
 
 	// Adjust Z range
 	addZtoTop := zleft / 2
-	layerBegZ := d.MinZ - addZtoTop
+	layerBegZ := minZ - addZtoTop
 	layerEndZ := layerBegZ + batchsize - 1
 
 	// Iterate through blocks in ascending Z, calculating active extents and subvolume coverage.
 	// Keep track of current layer = batchsize of blocks in Z.
 	var subvolumes subvolumesT
 	subvolumes.Subvolumes = []subvolumeT{}
-	subvolumes.ROI.MinChunk[2] = d.MinZ
-	subvolumes.ROI.MaxChunk[2] = d.MaxZ
+	subvolumes.ROI.MinChunk[2] = minZ
+	subvolumes.ROI.MaxChunk[2] = maxZ
 
 	layer := d.newLayer(layerBegZ, layerEndZ)
 
